@@ -96,6 +96,9 @@ func (c07) Gen(seed uint64, idx int, tier string) *Scenario {
 		sc.GateName = r.Chance(1, 3)
 		sc.Bias = prng.Pick(r, Biases)
 	}
+	if r.Chance(1, 5) && len(src) > 1 {
+		sc.StatSize = r.Range(1, len(src)) // stale metadata: the file grew after its size was taken
+	}
 	mode := r.Weighted(10, 2, 1, 3)
 	if tier == "thorough" {
 		mode = r.Weighted(8, 3, 2, 3)
